@@ -77,4 +77,47 @@ def userToNormalized (minV defV maxV : Int) (maps : Option (List (Int × Int))) 
     | none => c
   Fixed.toF2Dot14 c
 
+/-! ### the loop of `Fvar::user_to_normalized` over several settings (avar version 1 part) -/
+
+/-- a `VariationAxisRecord`: tag (big-endian `u32` of the four bytes) and the three `Fixed` values. -/
+structure AxisRec where
+  tag : Nat
+  minV : Int
+  defV : Int
+  maxV : Int
+  deriving Repr, DecidableEq
+
+/-- `avar_mappings.as_ref().and_then(|m| m.get(i).transpose().ok()).flatten()`: the segment map of
+axis `i` when an avar table is given and holds (at least) `i + 1` readable maps. -/
+def mapFor (maps : Option (List (List (Int × Int)))) (i : Nat) : Option (List (Int × Int)) :=
+  match maps with
+  | none => none
+  | some ms => ms[i]?
+
+/-- the inner loop for one `(tag, value)` setting, axes `i, i+1, …`:
+```
+for (i, axis) in axes.iter().enumerate().filter(|(_, axis)| axis.axis_tag() == user_coord.0) {
+    if let Some(target_coord) = normalized_coords.get_mut(i) {
+        *target_coord = … axis.normalize(value) … mapping.apply(coord) … .to_f2dot14();
+```
+every axis carrying the tag is written (duplicate tags), indices beyond the slice are skipped. -/
+def setAxesFrom (maps : Option (List (List (Int × Int)))) (tag : Nat) (value : Int) :
+    Nat → List AxisRec → List Int → List Int
+  | _, [], out => out
+  | i, a :: rest, out =>
+    let out' :=
+      if a.tag = tag then
+        (if i < out.length then
+          out.set i (userToNormalized a.minV a.defV a.maxV (mapFor maps i) value)
+        else out)
+      else out
+    setAxesFrom maps tag value (i + 1) rest out'
+
+/-- `Fvar::user_to_normalized(avar, user_coords, normalized_coords)` for an avar table of version 1
+(or none): `normalized_coords.fill(0)` then one pass of the inner loop per setting, in order.
+`outLen = normalized_coords.len()` (may be smaller or larger than the axis count). -/
+def userToNormalizedAll (axes : List AxisRec) (maps : Option (List (List (Int × Int))))
+    (settings : List (Nat × Int)) (outLen : Nat) : List Int :=
+  settings.foldl (fun out s => setAxesFrom maps s.1 s.2 0 axes out) (List.replicate outLen 0)
+
 end FontVerif.Normalize
